@@ -271,11 +271,12 @@ pub fn evaluate_cases(ctx: &Ctx, rep: &mut Report, cases: &[Case], hash_only: bo
         match a {
             Ok(()) => run_idx.push(i),
             Err(e) => {
-                rep.add("handed_to_C05_expander_rejects_what_reference_accepts", 1);
+                // the generators only emit placements the documentation allows: a refusal means the documented
+                // comparator / hash input of this field can not be had at all (acceptance as such is C05's subject)
+                let c = &cases[i];
                 rep.outcome("expander-rejected");
-                if rep.extra.get("first_expander_rejection").is_none() {
-                    rep.set("first_expander_rejection", json!({"item": items[i], "derived": names(&cases[i].derived), "error": e}));
-                }
+                rep.case(&format!("{} {} {}", c.entry.name(), names(&c.derived).join(","), items[i]), true);
+                rep.violation(Violation { symptom: "documented-placement-refused".into(), atoms: atoms_of(c), what: format!("{} derive_ex({}) via {}: the documentation allows this placement, the expander refuses it: {}", c.ts.describe(), names(&c.derived).join(", "), c.entry.name(), runner::first_line(e)), detail: json!({"gen": c.gen, "tier": ctx.tier.name(), "vector": c.vector, "entry": c.entry.name(), "derived": names(&c.derived), "item": items[i], "observation": e}), standalone: None });
             }
         }
     }
